@@ -68,6 +68,14 @@ DESC = {
  'C18_s4': 'laue.reduce_cell skips every candidate as short as the first vector when looking for the second',
  'C19_s3': 'saveparameters trims floats to 16 significant digits',
  'C19_s4': 'set_varylist stores the names in registration order',
+ 'C02_s5': 'ub_to_u_b vectorised sign fix derives the third flip from the first two (wrong when LAPACK skips a reflector: rotations about x or z)',
+ 'C09_s5': 'tools.find_omega_quart closed-form axis normal without the cos(wy) factor (both tilts non-zero)',
+ 'C13_s5': 'laue.epsilon_to_b back-substitution as a loop visiting (0,2) before (1,2) (triclinic / sheared hexagonal cells)',
+ 'C19_s5': 'update_yourself skips values that compare == (0.0 vs -0.0, 2048 vs 2048.0 never stored)',
+ 'C06_s5': 'sintlmin bound made inclusive in genhkl_base / genhkl (bound bit-equal to a reflection)',
+ 'C17_s5': 'CIFread pairs the k-th anisotropic atom with the k-th aniso row (aniso loop in another order)',
+ 'C15_s5': 'multiplicity image buffer inherits the dtype of the position (integer coordinates truncate translations)',
+ 'C18_s5': 'reduce_cell skips index triplets with abs(i)+abs(j)+abs(k) > uvw (skewed cells needing e.g. (2,1,1))',
 }
 rows = []
 for sid in sorted(os.listdir('/verif/seeded')):
